@@ -48,20 +48,33 @@ fn target_sock() -> SocketAddr {
 struct TLog {
     tcp: Vec<Vec<u8>>,
     udp: Vec<(SocketAddr, Vec<u8>)>,
+    /// the datagram target answers every datagram a second time, 45 simulated ms later ("late-reply:...")
+    late_replies: bool,
 }
 
 async fn target(log: Arc<Mutex<TLog>>) {
     let Ok(l) = TcpListener::bind(target_sock()).await else { return };
     let Ok(u) = UdpSocket::bind(target_sock()).await else { return };
+    let u = Arc::new(u);
     let ulog = log.clone();
     let _udp = spawn_scoped(async move {
         let mut buf = vec![0u8; 65536];
+        let mut late = Vec::new();
         loop {
             let Ok((n, from)) = u.recv_from(&mut buf).await else { return };
             ulog.lock().unwrap().udp.push((from, buf[..n].to_vec()));
             let mut r = b"reply:".to_vec();
             r.extend_from_slice(&buf[..n.min(32)]);
             let _ = u.send_to(&r, from).await;
+            if ulog.lock().unwrap().late_replies {
+                let (u, mut r) = (u.clone(), b"late-".to_vec());
+                r.extend_from_slice(b"reply:");
+                r.extend_from_slice(&buf[..n.min(32)]);
+                late.push(spawn_scoped(async move {
+                    tokio::time::sleep(Duration::from_millis(45)).await;
+                    let _ = u.send_to(&r, from).await;
+                }));
+            }
         }
     });
     let mut held = Vec::new();
@@ -1368,7 +1381,9 @@ pub fn execute_c09_sid(plan: &Plan) -> Outcome {
     let mut g = Gen::new(plan.extra["sub_seed"].as_u64().unwrap_or(1), 97);
     let out = rt::run_sim(plan.seed, plan.net_seed, plan.knobs.to_knobs(), || async {
         let mut findings: Vec<(String, String)> = Vec::new();
-        let log = Arc::new(Mutex::new(TLog::default()));
+        // (the target answers every datagram twice: at once and 45 ms later - after the other user's next datagram, which is
+        // sent 30 ms after this one, and before this user's next one)
+        let log = Arc::new(Mutex::new(TLog { late_replies: true, ..Default::default() }));
         let _t = spawn_scoped(target(log.clone()));
         tokio::task::yield_now().await;
         let server = start_server_json(plan.config.server_json());
@@ -1427,15 +1442,36 @@ pub fn execute_c09_sid(plan: &Plan) -> Outcome {
         // A's replies open under A's key
         let mut buf = vec![0u8; 65536];
         let mut replies = 0;
+        let mut late_for_a = 0;
         while let Ok(Ok((n, _))) = tokio::time::timeout(Duration::from_millis(5), a.recv_from(&mut buf)).await {
             replies += 1;
-            if refimpl::ss2022::udp_open_aes(&c.cipher, &ka, &[ka.clone()], 0, &buf[..n], true).is_err() {
-                findings.push(("reply-to-user-a-under-another-key".into(), format!("a reply delivered to user A does not open under A's key (variant {variant})")));
-                break;
+            match refimpl::ss2022::udp_open_aes(&c.cipher, &ka, &[ka.clone()], 0, &buf[..n], true) {
+                Err(_) => {
+                    findings.push(("reply-to-user-a-under-another-key".into(), format!("a reply delivered to user A does not open under A's key (variant {variant})")));
+                    break;
+                }
+                Ok((body, _, _, _)) => {
+                    if body.payload.starts_with(b"late-reply:user-a-") {
+                        late_for_a += 1;
+                    }
+                }
             }
         }
         if replies == 0 {
             findings.push(("session-of-user-a-disturbed".into(), format!("user A received no reply at all (variant {variant}, gap {gap_s} s)")));
+        } else if late_for_a != sent_a.len() && findings.is_empty() {
+            // every datagram of A's was relayed (checked above), so the target answered each of them twice; the second answer
+            // travels while the other user's datagram - refused or served under its own session - has just passed the server
+            findings.push(("late-reply-of-user-a-lost".into(), format!("user A received {late_for_a} of the {} late replies to its datagrams (variant {variant}, gap {gap_s} s; user B {} A's session id)", sent_a.len(), if sid_b == sid_a { "uses" } else { "does not use" })));
+        }
+        // nothing of A's comes to B: not under A's key, and no answer to a datagram of A's under B's key either
+        while let Ok(Ok((n, _))) = tokio::time::timeout(Duration::from_millis(5), b.recv_from(&mut buf)).await {
+            let as_a = refimpl::ss2022::udp_open_aes(&c.cipher, &ka, &[ka.clone()], 0, &buf[..n], true).is_ok();
+            let a_content = refimpl::ss2022::udp_open_aes(&c.cipher, &kb, &[kb.clone()], 0, &buf[..n], true).is_ok_and(|(b, _, _, _)| b.payload.windows(7).any(|w| w == b"user-a-"));
+            if as_a || a_content {
+                findings.push(("reply-of-user-a-delivered-to-user-b".into(), format!("a reply that belongs to user A's session arrived at user B's address (sealed under A's key: {as_a}; variant {variant}, gap {gap_s} s)")));
+                break;
+            }
         }
         (None, findings, sent_a.len() as u64)
     });
